@@ -97,7 +97,11 @@ def run_seed(pid: str, name: str, base: str) -> dict:
         if r.returncode != 0:
             return {"name": f"seed {name}", "expect": "fire", "status": "skipped", "why": "patch no longer applies to the current tree"}
         env = dict(os.environ, VERIF_REPO=d, VERIF_EVIDENCE_DIR=os.path.join(d, "evidence"), VERIF_TIER="quick")
-        rr = subprocess.run(["/venv/bin/python", "-B", "-m", "sa.main", pid, "--tier", "quick"], cwd=VERIF, env=env, capture_output=True, text=True, timeout=600)
+        try:
+            rr = subprocess.run(["/venv/bin/python", "-B", "-m", "sa.main", pid, "--tier", "quick"], cwd=VERIF, env=env, capture_output=True, text=True, timeout=1500)
+        except subprocess.TimeoutExpired:
+            # (the typestate exploration of a tree broken in the protocol can take minutes; on a loaded machine that is no verdict)
+            return {"name": f"seed {name}", "expect": "fire", "status": "skipped", "why": "replay exceeded its time limit"}
         rules = sorted({l.strip().split(" @ ")[0] for l in rr.stdout.splitlines() if " @ " in l and l.strip().startswith(pid + "/")})
         res = {"name": f"seed {name}", "expect": "fire", "rc": rr.returncode, "rules": rules}
         res["status"] = "ok" if rr.returncode in (1, 2) else "MISSED"
@@ -127,7 +131,10 @@ def run_transform(pid: str, tname: str, base: str) -> dict:
                         n += 1
                     open(p, "w", encoding="utf-8").write(new)
         env = dict(os.environ, VERIF_REPO=d, VERIF_EVIDENCE_DIR=os.path.join(d, "evidence"), VERIF_TIER="quick")
-        rr = subprocess.run(["/venv/bin/python", "-B", "-m", "sa.main", pid, "--tier", "quick"], cwd=VERIF, env=env, capture_output=True, text=True, timeout=900)
+        try:
+            rr = subprocess.run(["/venv/bin/python", "-B", "-m", "sa.main", pid, "--tier", "quick"], cwd=VERIF, env=env, capture_output=True, text=True, timeout=1500)
+        except subprocess.TimeoutExpired:
+            return {"name": f"E whole-tree {tname} ({n} modules rewritten)", "expect": "silent", "status": "skipped", "why": "run exceeded its time limit"}
         rules = sorted({l.strip().split(" @ ")[0] for l in rr.stdout.splitlines() if " @ " in l and l.strip().startswith(pid + "/")})
         res = {"name": f"E whole-tree {tname} ({n} modules rewritten)", "expect": "silent", "rc": rr.returncode, "rules": rules}
         res["status"] = "ok" if rr.returncode == 0 else "FALSE-ALARM"
@@ -166,7 +173,10 @@ def run_equiv(pid: str, name: str, base: str) -> dict:
         if r.returncode != 0:
             return {"name": f"equiv {name}", "expect": "silent", "status": "skipped", "why": "patch no longer applies to the current tree"}
         env = dict(os.environ, VERIF_REPO=d, VERIF_EVIDENCE_DIR=os.path.join(d, "evidence"), VERIF_TIER="quick")
-        rr = subprocess.run(["/venv/bin/python", "-B", "-m", "sa.main", pid, "--tier", "quick"], cwd=VERIF, env=env, capture_output=True, text=True, timeout=1200)
+        try:
+            rr = subprocess.run(["/venv/bin/python", "-B", "-m", "sa.main", pid, "--tier", "quick"], cwd=VERIF, env=env, capture_output=True, text=True, timeout=1500)
+        except subprocess.TimeoutExpired:
+            return {"name": f"equiv {name}", "expect": "silent", "status": "skipped", "why": "run exceeded its time limit"}
         rules = sorted({l.strip().split(" @ ")[0] for l in rr.stdout.splitlines() if " @ " in l and l.strip().startswith(pid + "/")})
         res = {"name": f"equiv {name}", "expect": "silent", "rc": rr.returncode, "rules": rules}
         res["status"] = "ok" if rr.returncode == 0 else "FALSE-ALARM"
